@@ -345,6 +345,8 @@ func runC16(tier string, r *rng) {
 	for _, extra := range []int{50, 350} {
 		c16Move(mk(400, sec), 1, 100*sec, sec, extra, 0, "offline")
 	}
+	// a long chain much denser than the configured block time: the first prune walks down hundreds of headers
+	c16Move(mk(3000, sec), 1, 1200*sec, 4*sec, 0, 0, "dense-long")
 	// offline across a halt: local store 1..100 (1 s apart), 10 min pause, 3 more blocks on the network only
 	{
 		ts := mk(100, sec)
